@@ -7,6 +7,5 @@ VARIABLE k
 Init == k \in 1..Len(RootRec)
 Next == UNCHANGED k
 AgreeInv == Agree(RootRec[k].b, RootRec[k].s)
-          /\ PrintT("TURNS " \o ToString(k) \o " " \o ToString(Cardinality(ConsComplete(RootRec[k].b, RootRec[k].s)))
-                      \o " " \o ToString(Cardinality(ConsPrefixes(RootRec[k].b, RootRec[k].s))))
+          /\ PrintT("TURNS " \o ToString(k) \o " " \o ToString(Cardinality(ConsComplete(RootRec[k].b, RootRec[k].s))))
 =============================================================================
